@@ -20,6 +20,8 @@ Delete(m, k) ==
 Filter(m, P(_, _)) ==
   LET keep == {k \in DOMAIN m.data : P(k, m.data[k])} IN
   [order |-> SelectSeq(m.order, LAMBDA x : x \in keep), data |-> [x \in keep |-> m.data[x]]]
+\* Filter with a callback that panics on the keys in PanicAt (the caller recovers): the operation did not take place
+FilterPanic(m, P(_, _), PanicAt) == IF DOMAIN m.data \cap PanicAt # {} THEN m ELSE Filter(m, P)
 \* Map with a callback that fails on the keys in FailAt: entries before the first failing key (in
 \* iteration order) are replaced, the failing entry and everything after it stay; result = error flag
 FirstFail(m, FailAt) ==
